@@ -55,13 +55,7 @@ class BitcoinSolutionChecker(SegwitChecker, P2SChecker):
         else:
             prefix = b"\x4e" + size.to_bytes(4, "little")
         subscript = prefix + sig_blob
-        new_script = bytearray()
-        pc = 0
-        for opcode, data, pc, new_pc in self.ScriptTools.get_opcodes(script):
-            section = script[pc:new_pc]
-            if section != subscript:
-                new_script.extend(section)
-        return bytes(new_script)
+        return self.delete_subscript(script, subscript)
 
     def _make_sighash_f(self, tx_in_idx: int) -> Any:
 
@@ -123,10 +117,18 @@ class BitcoinSolutionChecker(SegwitChecker, P2SChecker):
         """
         new_script = bytearray()
         pc = 0
-        for opcode, data, pc, new_pc in class_.ScriptTools.get_opcodes(script):
+        while pc < len(script):
+            opcode, data, new_pc, is_ok = class_.ScriptTools.scriptStreamer.get_opcode(
+                script, pc
+            )
+            if not is_ok:
+                # an instruction that does not decode ends the walk: the rest is kept as it is
+                new_script.extend(script[pc:])
+                break
             section = script[pc:new_pc]
             if section != subscript:
                 new_script.extend(section)
+            pc = new_pc
         return bytes(new_script)
 
     def _signature_hash(self, tx_out_script: bytes, unsigned_txs_out_idx: int, hash_type: int) -> int:
